@@ -65,6 +65,7 @@ package recovery
 //@   at call Verify assert [verifies-decompressed-stream] arg_src == decompressor && arg_signatureFormat == pipes.Signature
 //@   ensures [content-complete] result == nil && !preview && hdr.Typeflag != 53 && fiMode(hdrInfoOf(hdr)) & 2401763328 == 0 ==> copied[dstFile] == verifier
 //@   property C06
+//@   ensures [restoring-a-record-reads-that-record-only] result == nil ==> nextCalls == old(nextCalls) + 1
 //@   ensures [torn-content-reports-error] result == nil && !preview && hdr.Typeflag != 53 && fiMode(hdrInfoOf(hdr)) & 2401763328 == 0 ==> copied[dstFile] == verifier
 //@   property C08
 //@   at call Copy#1 assert [raw-copy-only-for-non-regular] fiMode(hdrInfoOf(hdr)) & 2401763328 != 0
@@ -76,8 +77,9 @@ package recovery
 //@   param onHeader is HeaderCallback
 //@   property C10 also C11
 //@   safety C10
-//@   modifies *, indexWrites, hdrVerified[hdr], hdrSubstituted[hdr], hdrSealed[hdr], ghosts(C14), rowWrites, ghosts(C12), keyMoves
+//@   modifies *, indexWrites, hdrVerified[hdr], hdrSubstituted[hdr], hdrSealed[hdr], ghosts(C14), rowWrites, ghosts(C12), keyMoves, upserts
 //@   property C07
+//@   ensures [a-create-record-always-replaces-its-row] result == nil && (!old(has(hdr.PAXRecords, "STFS.Version")) || old(hdr.PAXRecords["STFS.Version"]) == "1") && (!old(has(hdr.PAXRecords, "STFS.Action")) || old(hdr.PAXRecords["STFS.Action"]) == "CREATE") ==> upserts == old(upserts) + 1
 //@   ensures [move-record-rewrites-key] old(has(hdr.PAXRecords, "STFS.ReplacesName")) && (!old(has(hdr.PAXRecords, "STFS.Version")) || old(hdr.PAXRecords["STFS.Version"]) == "1") && old(hdr.PAXRecords["STFS.Action"]) == "UPDATE" && result == nil ==> keyMoves == old(keyMoves) + 1
 //@   property C04
 //@   at call UpdateHeaderMetadata#1 assert [edits-before-move] keyMoves == old(keyMoves)
